@@ -33,6 +33,7 @@ ERecOK(ev) == /\ ev.i <= Len(want) /\ ev.i = seen + 1
               /\ LET w == want[ev.i] IN ev.db = w.db /\ ev.id = w.id /\ ev.ex = w.ex
               /\ ev.key_ok /\ ev.val_ok
 EEndOK(ev) == ev.err = "" /\ ev.footer_ok /\ ev.records = Len(want) /\ seen = Len(want)
+              /\ ev.late_ok                 \* the records still say the same after the loader has moved on to the end of the file
 EventOK(ev) == CASE ev.e = "val" -> ValOK(ev) [] ev.e = "bulk" -> BitsOK(ev)
                  [] ev.e = "efile" -> EFileOK(ev) [] ev.e = "erec" -> ERecOK(ev) [] ev.e = "eend" -> EEndOK(ev)
                  [] ev.e = "load" -> ev.ok [] OTHER -> TRUE
